@@ -315,6 +315,30 @@ def make_fn(tier):
     return fn
 
 
+def proofs_everywhere(sysm, snap, model):
+    o = Out()
+    root = snap[0]
+    for where in ("pruning trie", "batch trie of a pruning trie", "batch trie of a non-pruning trie"):
+        t = restore(snap, logdict=False) if where != "batch trie of a non-pruning trie" else restore((snap[0], snap[1], None), logdict=False)
+        for k in sysm.probes:
+            o.evals += 1
+            try:
+                if where == "pruning trie":
+                    proof = t.get_proof(k)
+                else:
+                    with t.squash_changes() as b:
+                        proof = b.get_proof(k)
+                got = HexaryTrie.get_from_proof(root, k, [deep(n) for n in proof])
+            except Exception as e:  # noqa
+                o.viol("C03", "get_proof_raised", f"get_proof / get_from_proof raised {type(e).__name__} on a {where}", key=k, kind=where, exc=repr(e)[:120])
+                break
+            if got != model.get(k, b""):
+                o.viol("C03", "honest_proof_wrong", f"proof produced by a {where} does not verify to get(key)", key=k, kind=where)
+                break
+            o.nontrivial += 1
+    return o
+
+
 def run(tier, seed):
     rep = Report("C03", tier, seed, "fault_enumeration")
     rep.rule = ("states = every trie of a closure BFS; per state and probe key: honest proof, every sub-list, permutations/rotations, "
@@ -331,6 +355,9 @@ def run(tier, seed):
     for name, kw in plans:
         sysm, states = hex_states(rep, name, **kw)
         per_state(rep, name + " proofs", sysm, states, fn)
+    # proofs are a read-only service of EVERY trie: pruning tries and the trie yielded by squash_changes included
+    sysm, states = hex_states(rep, "H4xSL prune=True", universe="H4", values=("S", "L"), prune=True)
+    per_state(rep, "H4xSL proofs on pruning tries and inside squash_changes", sysm, states, proofs_everywhere)
     add_scale(rep, "C03")
     return rep
 
